@@ -158,3 +158,18 @@ def c11_default_uses_extension_field(rec, base_rec) -> bool:
                 if a.get("default") and uses_missing(a["type"], a["default"][1]):
                     return True
     return False
+
+
+def c07_omitted_variable_in_literal(present: bool) -> bool:
+    """KF C07-omitted-variable-inside-literal: a variable WITHOUT a runtime value used inside an object or list literal
+    (f(i: {a: $v}), f(l: [1, $v])) raises UnknownVariable (a field error) instead of being treated as an absent field /
+    a null item as the specification's literal coercion says; pinned by tests/test_utilities/test_value_from_ast.py
+    (test_it_omits_input_object_fields_for_unprovided_variables, test_it_asserts_variables_are_provided_as_items_in_lists)."""
+    return ENABLED and not present
+
+
+def c10_subscription_through_query_entry_point() -> bool:
+    """KF C10-subscription-operation-raises: a `subscription` operation sent through graphql_blocking / process_graphql_query / graphql makes
+    execute() raise RuntimeError ("`execute` does not support subscriptions, use the `subscribe` helper") instead of giving an error response;
+    the RuntimeError is the documented contract of execute() ("Raises: RuntimeError: on invalid operation"), so the behaviour is recorded, not changed."""
+    return ENABLED
